@@ -328,7 +328,7 @@ def run(env):
     # pairwise covering set of lib/framework.py
     from props.c13 import slice_text
     mtext = slice_text(generate(env, "impl", 1, 4), env.seed % 2, 8 if env.quick() else 2)
-    blist = ["mix-noalloc-abort-s-native", "mix-std-abort-z"]
+    blist = ["mix-noalloc-abort-s-native", "mix-std-abort-z", "cfg-fuzzing"]
     if not env.quick():
         blist += ["opt0", "opt1", "opts", "optz", "native"] + fw.pairwise_builds()
     for b in blist:
